@@ -1,3 +1,52 @@
+/-
+  Props/C16Reports — the configuration reports `params()`, `limits()`, `phases()`, `tree()` (Model/Reports.lean, the
+  model of system.py `_pars_and_limits` / `_filt_lim` / `phases` / `tree`, tied to the code by harness/reportscheck.py).
+  C16: "every report lists exactly the live components; params(), limits() and phases() show for each component the
+  parameters, non-default limits and per-phase values it was configured with (tables as 'interp')", and results do not
+  depend on the order rustworkx happens to process the nodes in.
+
+  Vocabulary.  `TopoLive s`: `_topo_nodes` lists exactly the live ids, once each.  `liveNames s`: the names of the live
+  components.  `PhasesWF s`: the first parent of a node is live and listed before it, only SOURCEs are roots (what the
+  running-domain bookkeeping of `phases()` relies on).  `TreeWF s`: children are live, every live node hangs below a
+  source.  All three hold for every reachable system (C14) and are hypotheses here.  `withTopo s t`: `s` processed in
+  the order `t`.
+
+  Fully proved (no hypothesis beyond the ones named):
+    params_lists_live, limits_lists_live   [TopoLive]  Component column = names in `_topo_nodes` order = a permutation
+                                           of the live components' names (each node once)
+    params_show_config                     (any component) the cell of a parameter column is `_get_params`'s value:
+                                           blank / "interp" for a stored table / the stored value
+    params_show_normalised                 (components built by `mkComp`) which columns a kind fills; the NUMBER shown is the
+                                           normalised field the laws use (`normField`), `ig` up to its sign; "interp" iff
+                                           the stored parameter is a table (iff the interpolator is a table); `loss` flag
+    limits_show_nondefault                 a limit cell is shown iff the key is configured with a pair ≠ LIMITS_DEFAULT,
+                                           and then IS that pair; blank iff the limit the warnings use is the default
+    phases_lists_live                      (Component, Active phase) columns = per node, in order, its `ph_names`
+    phases_lists_live_iff                  [TopoLive] a name is listed iff it is a live component that is NOT a Rectifier
+    phases_show_activity                   source / converter / regulator / switch / mux: one row per system phase listed in
+                                           its configuration (= the phases the laws treat a configured component as active
+                                           in), a single "N/A" row if none; loss elements: "N/A"
+    phases_show_values                     (loads built by `mkComp`) the row of a system phase shows `loadVal main sleep` of
+                                           that phase in the column of the load's kind only; the "N/A" row shows the main
+                                           parameter = what the laws use in every phase when there is NO configuration
+    phases_domain, phases_rows_wf          [PhasesWF] the Domain cell is the structural domain (source above the component
+                                           along first parents), the rows are a function of the structure and the order
+    reports_order_free                     (params_order_free, tree_order_free, phases_order_free [PhasesWF on both orders])
+                                           another topological order permutes the rows of all four reports — Domain cells
+                                           included; `None` / exception agree
+  Partial:
+    phases_lists_live_partial              "lists exactly the live components" for phases() ONLY in a system without
+                                           Rectifier components.  The full statement `phases_lists_live_full` is FALSE:
+                                           `phases_lists_live_full_fails` (witness `exS`: the `if / elif` chain over the type
+                                           name has no branch for RECTIFIER, so a Rectifier gets no row).
+    tree_lists_live_partial                [TreeWF] printed labels = live names, printed links = the parent → child links
+  Not covered: the text layout of Rich; the DataFrame column order beyond `reportColumns`; that "N/A" is printed both for a
+  component without configuration (always active) and for one whose configuration names no system phase (never active,
+  a load is then shown with its main parameter although the laws use the sleep value) — `phases_show_values` says so.
+
+  Non-vacuity: section `examples` (S → {C → I, RE, P} over ℚ with two system phases, a tabulated efficiency, non-default
+  and default limits, a second processing order; constructor hypotheses discharged by kernel evaluation of `mkComp`).
+-/
 import SysLoss.Proofs.Ctor
 import SysLoss.Model.Reports
 import Mathlib.Data.List.Perm.Basic
@@ -1540,6 +1589,406 @@ theorem reports_order_free (s : SSys α) (t : List Nat) (hp : t.Perm s.topo) (hw
     (∀ e, phasesRows s = .error e → ∃ e', phasesRows (withTopo s t) = .error e') :=
   ⟨fun b => params_order_free s t hp true b, params_order_free s t hp false true,
    (tree_order_free s t hp).1, (tree_order_free s t hp).2, phases_order_free s t hp hw hw'⟩
+
+/-! ## 6. `tree()` prints exactly the components below the sources -/
+
+/-- `m` is reached from `n` in at most `k` parent → child steps -/
+inductive DescK (s : SSys α) : Nat → Nat → Nat → Prop
+  | refl (k n : Nat) : DescK s k n n
+  | step {k n c m : Nat} : c ∈ s.childsOf n → DescK s k c m → DescK s (k + 1) n m
+
+theorem DescK.zero {s : SSys α} {n m : Nat} (h : DescK s 0 n m) : m = n := by
+  cases h; rfl
+
+theorem DescK.succ {s : SSys α} {k n m : Nat} (h : DescK s k n m) : DescK s (k + 1) n m := by
+  induction h with
+  | refl k n => exact .refl _ _
+  | step hc _ ih => exact .step hc ih
+
+theorem DescK.mono {s : SSys α} {k k' n m : Nat} (h : DescK s k n m) (hk : k ≤ k') : DescK s k' n m := by
+  induction hk with
+  | refl => exact h
+  | step _ ih => exact ih.succ
+
+/-- the labels printed below (and including) `n` are the names of the nodes reached from `n` -/
+theorem treeLines_labels (s : SSys α) : ∀ (f d n : Nat) (x : String),
+    (∃ d', (d', x) ∈ s.treeLines f d n) ↔ ∃ m, DescK s f n m ∧ s.nameOf m = x
+  | 0, d, n, x => by
+    simp only [SSys.treeLines, List.mem_singleton, Prod.mk.injEq]
+    constructor
+    · rintro ⟨d', _, rfl⟩; exact ⟨n, .refl _ _, rfl⟩
+    · rintro ⟨m, hm, rfl⟩; rw [hm.zero]; exact ⟨d, rfl, rfl⟩
+  | f + 1, d, n, x => by
+    simp only [SSys.treeLines, List.mem_cons, List.mem_flatMap, Prod.mk.injEq]
+    constructor
+    · rintro ⟨d', ⟨_, rfl⟩ | ⟨c, hc, hin⟩⟩
+      · exact ⟨n, .refl _ _, rfl⟩
+      · obtain ⟨m, hm, hx⟩ := (treeLines_labels s f (d + 1) c x).mp ⟨d', hin⟩
+        exact ⟨m, .step hc hm, hx⟩
+    · rintro ⟨m, hm, rfl⟩
+      cases hm with
+      | refl => exact ⟨d, Or.inl ⟨rfl, rfl⟩⟩
+      | step hc hd =>
+        obtain ⟨d', hin⟩ := (treeLines_labels s f (d + 1) _ _).mpr ⟨m, hd, rfl⟩
+        exact ⟨d', Or.inr ⟨_, hc, hin⟩⟩
+
+/-- the links printed below `n` are the parent → child links of the nodes reached from `n` -/
+theorem treeLinks_links (s : SSys α) : ∀ (f n : Nat) (a b : String),
+    (a, b) ∈ s.treeLinks (f + 1) n ↔
+      ∃ m c, DescK s f n m ∧ c ∈ s.childsOf m ∧ a = s.nameOf m ∧ b = s.nameOf c
+  | 0, n, a, b => by
+    simp only [SSys.treeLinks, List.mem_flatMap, List.mem_cons, Prod.mk.injEq, List.not_mem_nil, or_false]
+    constructor
+    · rintro ⟨c, hc, rfl, rfl⟩; exact ⟨n, c, .refl _ _, hc, rfl, rfl⟩
+    · rintro ⟨m, c, hm, hc, rfl, rfl⟩; rw [hm.zero] at hc ⊢; exact ⟨c, hc, rfl, rfl⟩
+  | f + 1, n, a, b => by
+    have ih := treeLinks_links s f
+    rw [SSys.treeLinks]
+    simp only [List.mem_flatMap, List.mem_cons, Prod.mk.injEq]
+    constructor
+    · rintro ⟨c, hc, ⟨rfl, rfl⟩ | hin⟩
+      · exact ⟨n, c, .refl _ _, hc, rfl, rfl⟩
+      · obtain ⟨m, c', hm, hc', ha, hb⟩ := (ih c a b).mp hin
+        exact ⟨m, c', .step hc hm, hc', ha, hb⟩
+    · rintro ⟨m, c', hm, hc', rfl, rfl⟩
+      cases hm with
+      | refl => exact ⟨c', hc', Or.inl ⟨rfl, rfl⟩⟩
+      | step hc hd => exact ⟨_, hc, Or.inr ((ih _ _ _).mpr ⟨m, c', hd, hc', rfl, rfl⟩)⟩
+
+/-- what `tree()` relies on: children of live nodes are live, and every live node hangs below a source (within
+    `hidx − 1` levels: a path never has more nodes than the system).  True of every reachable system (C14). -/
+structure TreeWF (s : SSys α) : Prop where
+  childsLive : ∀ n nd, s.node? n = some nd → ∀ c ∈ nd.childs, ∃ cd, s.node? c = some cd
+  reach : ∀ m md, s.node? m = some md → ∃ r ∈ s.sources, DescK s (s.hidx - 1) r m
+
+theorem mem_sources {s : SSys α} {r : Nat} (h : r ∈ s.sources) : ∃ nd, s.node? r = some nd := by
+  unfold SSys.sources at h
+  obtain ⟨_, hp⟩ := List.mem_filter.mp h
+  cases hn : s.node? r with
+  | none => rw [hn] at hp; cases hp
+  | some nd => exact ⟨nd, rfl⟩
+
+theorem DescK.live {s : SSys α} (hw : TreeWF s) {k n m : Nat} (h : DescK s k n m)
+    (hn : ∃ nd, s.node? n = some nd) : ∃ md, s.node? m = some md := by
+  induction h with
+  | refl => exact hn
+  | step hc _ ih =>
+    obtain ⟨nd, hnd⟩ := hn
+    apply ih
+    unfold SSys.childsOf at hc
+    rw [hnd] at hc
+    exact hw.childsLive _ nd hnd _ hc
+
+/-- **tree() lists exactly the live components — partial** (`TreeWF`): the labels printed are the names of the live
+    components, and the links printed are exactly the parent → child links of the structure. -/
+theorem tree_lists_live_partial {s : SSys α} (hw : TreeWF s) :
+    (∀ x, x ∈ (treeLinesAll s).map (·.2) ↔ x ∈ liveNames s) ∧
+    (∀ a b, (a, b) ∈ treeEdges s ↔
+      ∃ m md c, s.node? m = some md ∧ c ∈ md.childs ∧ a = md.comp.name ∧ b = s.nameOf c) := by
+  constructor
+  · intro x
+    unfold treeLinesAll liveNames
+    simp only [List.mem_map, List.mem_flatMap, mem_liveIds]
+    constructor
+    · rintro ⟨⟨d, y⟩, ⟨r, hr, hin⟩, rfl⟩
+      obtain ⟨m, hm, hx⟩ := (treeLines_labels s s.hidx 0 r y).mp ⟨d, hin⟩
+      exact ⟨m, hm.live hw (mem_sources hr), hx⟩
+    · rintro ⟨m, ⟨md, hmd⟩, rfl⟩
+      obtain ⟨r, hr, hd⟩ := hw.reach m md hmd
+      obtain ⟨d', hin⟩ := (treeLines_labels s s.hidx 0 r (s.nameOf m)).mpr ⟨m, hd.mono (Nat.sub_le _ _), rfl⟩
+      exact ⟨(d', s.nameOf m), ⟨r, hr, hin⟩, rfl⟩
+  · intro a b
+    unfold treeEdges
+    simp only [List.mem_flatMap]
+    constructor
+    · rintro ⟨r, hr, hin⟩
+      have hpos : s.hidx = (s.hidx - 1) + 1 := by
+        obtain ⟨nd, hnd⟩ := mem_sources hr
+        have := node?_lt hnd; omega
+      rw [hpos] at hin
+      obtain ⟨m, c, hm, hc, rfl, rfl⟩ := (treeLinks_links s _ r a b).mp hin
+      obtain ⟨md, hmd⟩ := hm.live hw (mem_sources hr)
+      unfold SSys.childsOf at hc; rw [hmd] at hc
+      exact ⟨m, md, c, hmd, hc, nameOf_some hmd, rfl⟩
+    · rintro ⟨m, md, c, hmd, hc, rfl, rfl⟩
+      obtain ⟨r, hr, hd⟩ := hw.reach m md hmd
+      have hpos : s.hidx = (s.hidx - 1) + 1 := by have := node?_lt hmd; omega
+      refine ⟨r, hr, ?_⟩
+      rw [hpos]
+      refine (treeLinks_links s _ r _ _).mpr ⟨m, c, hd, ?_, (nameOf_some hmd).symm, rfl⟩
+      unfold SSys.childsOf; rw [hmd]; exact hc
+
+/-! ## 7. The full "lists exactly the live components" statement fails for `phases()` (Rectifier); non-vacuity -/
+
+/-- a decidable sufficient check of `PhasesWF.order` for concrete systems -/
+def orderCheck (s : SSys α) : Bool :=
+  s.topo.all fun n => match s.node? n with
+    | some nd => (match nd.parents with
+        | p :: _ => (s.topo.take (s.topo.idxOf n)).contains p
+        | [] => true)
+    | none => true
+
+theorem order_of_check {s : SSys α} (hnd : s.topo.Nodup) (h : orderCheck s = true) :
+    ∀ pre n post, s.topo = pre ++ n :: post →
+      ∀ nd p rest, s.node? n = some nd → nd.parents = p :: rest → p ∈ pre := by
+  intro pre n post ht nd p rest hn hp
+  have hmem : n ∈ s.topo := by rw [ht]; simp
+  have hc := List.all_eq_true.mp h n hmem
+  simp only [hn, hp] at hc
+  have hnot : n ∉ pre := by
+    rw [ht] at hnd
+    intro hin
+    have := (List.nodup_append.mp hnd).2.2 n hin n (by simp)
+    exact this rfl
+  have hidx : s.topo.idxOf n = pre.length := by
+    rw [ht, List.idxOf_append_of_notMem hnot]; simp
+  rw [hidx, ht, List.take_left'] at hc
+  · simpa using hc
+  · rfl
+
+theorem isSome_ok {β : Type} {x : Except Err β} (h : x.toOption.isSome = true) : ∃ c, x = .ok c := by
+  cases x with
+  | ok c => exact ⟨c, rfl⟩
+  | error e => cases h
+
+/-- the statement of C16 for `phases()` at full strength: every live component is listed -/
+def phases_lists_live_full : Prop :=
+  ∀ (s : SSys ℚ) (rep : PhasesRep ℚ), TopoLive s → phasesRows s = .ok (some rep) →
+    ∀ x, x ∈ liveNames s → x ∈ rep.rows.map (·.name)
+
+section examples
+
+def effTab : PV ℚ := .dict [("vi", .list [.float 5]), ("io", .list [.float 0, .float 1]),
+  ("eff", .list [.list [.float (4/5), .float (9/10)]])]
+
+/-- constructor arguments (signs to be normalised) -/
+def aC : Args ℚ := [("vo", .float 3), ("eff", effTab), ("iq", .float (-1/1000))]
+def aI : Args ℚ := [("ii", .float (-1/10)), ("limits", .dict [("vi", .list [.int 1, .int 4])])]
+
+/-- Source "S" (5 V, 0.1 Ω, limits io = [0, 2] and po = default) -/
+def cS : Comp ℚ :=
+  { name := "S", kind := .source, vo := 5, rs := 1/10, par := .const 0,
+    limits := [("io", (0, 2)), ("po", (0, 1000000))],
+    params := [("name", .str "S"), ("vo", .int 5), ("rs", .float (1/10)), ("rt", .float 0)] }
+/-- Converter "C" with a tabulated efficiency: what `mkComp .converter "C" aC` builds -/
+def cC : Comp ℚ :=
+  { name := "C", kind := .converter, vo := 3, par := .tab1 [0, 1] [4/5, 9/10], iq := 1/1000,
+    params := [("name", .str "C"), ("vo", .float 3), ("eff", effTab), ("iq", .float (1/1000)),
+               ("iis", .float 0), ("rt", .float 0)] }
+/-- ILoad "I": what `mkComp .iload "I" aI` builds -/
+def cI : Comp ℚ :=
+  { name := "I", kind := .iload, ii := 1/10, par := .const 0, limits := [("vi", (1, 4))],
+    params := [("name", .str "I"), ("ii", .float (1/10)), ("iis", .float 0), ("rt", .float 0),
+               ("loss", .bool false)] }
+/-- diode Rectifier "RE" -/
+def cRE : Comp ℚ :=
+  { name := "RE", kind := .rectifier, par := .const (3/10), diode := true,
+    params := [("name", .str "RE"), ("type", .str "diode"), ("vdrop", .float (3/10)), ("rt", .float 0)] }
+
+/-- PLoad "P" without phase configuration -/
+def cP : Comp ℚ :=
+  { name := "P", kind := .pload, pwr := 2, par := .const 0,
+    params := [("name", .str "P"), ("pwr", .float 2), ("pwrs", .float 0), ("rt", .float 0), ("loss", .bool false)] }
+
+def n0 : SNode ℚ := { comp := cS, parents := [], childs := [4, 3, 1], pconf := .names ["run"] }
+def n1 : SNode ℚ := { comp := cC, parents := [0], childs := [2], pconf := .names ["run", "sleep", "zz"] }
+def n2 : SNode ℚ := { comp := cI, parents := [1], childs := [], pconf := .table [("run", 1/5)] }
+def n3 : SNode ℚ := { comp := cRE, parents := [0], childs := [] }
+def n4 : SNode ℚ := { comp := cP, parents := [0], childs := [] }
+
+/-- S → {C → I, RE, P}, two system phases -/
+def exS : SSys ℚ :=
+  { nodes := #[some n0, some n1, some n2, some n3, some n4], topo := [0, 1, 2, 3, 4],
+    phases := [("run", 10), ("sleep", 90)] }
+
+/-- the other topological order -/
+def exT : List Nat := [0, 4, 3, 1, 2]
+
+theorem exS_cases {n : Nat} {nd : SNode ℚ} (h : exS.node? n = some nd) :
+    (n = 0 ∧ nd = n0) ∨ (n = 1 ∧ nd = n1) ∨ (n = 2 ∧ nd = n2) ∨ (n = 3 ∧ nd = n3) ∨ (n = 4 ∧ nd = n4) := by
+  have hlt : n < 5 := node?_lt h
+  have h0 : exS.node? 0 = some n0 := rfl
+  have h1 : exS.node? 1 = some n1 := rfl
+  have h2 : exS.node? 2 = some n2 := rfl
+  have h3 : exS.node? 3 = some n3 := rfl
+  have h4 : exS.node? 4 = some n4 := rfl
+  obtain rfl | rfl | rfl | rfl | rfl : n = 0 ∨ n = 1 ∨ n = 2 ∨ n = 3 ∨ n = 4 := by omega
+  · rw [h0] at h; exact Or.inl ⟨rfl, (Option.some.inj h).symm⟩
+  · rw [h1] at h; exact Or.inr (Or.inl ⟨rfl, (Option.some.inj h).symm⟩)
+  · rw [h2] at h; exact Or.inr (Or.inr (Or.inl ⟨rfl, (Option.some.inj h).symm⟩))
+  · rw [h3] at h; exact Or.inr (Or.inr (Or.inr (Or.inl ⟨rfl, (Option.some.inj h).symm⟩)))
+  · rw [h4] at h; exact Or.inr (Or.inr (Or.inr (Or.inr ⟨rfl, (Option.some.inj h).symm⟩)))
+
+theorem exS_live (t : List Nat) (ht : t.Perm [0, 1, 2, 3, 4]) : TopoLive (withTopo exS t) := by
+  refine ⟨ht.nodup_iff.mpr (by decide), fun n => ?_⟩
+  show n ∈ t ↔ ∃ nd, exS.node? n = some nd
+  rw [ht.mem_iff]
+  constructor
+  · intro hn
+    simp only [List.mem_cons, List.not_mem_nil, or_false] at hn
+    rcases hn with rfl | rfl | rfl | rfl | rfl
+    exacts [⟨n0, rfl⟩, ⟨n1, rfl⟩, ⟨n2, rfl⟩, ⟨n3, rfl⟩, ⟨n4, rfl⟩]
+  · rintro ⟨nd, h⟩
+    rcases exS_cases h with ⟨rfl, _⟩ | ⟨rfl, _⟩ | ⟨rfl, _⟩ | ⟨rfl, _⟩ | ⟨rfl, _⟩ <;> simp
+
+theorem exS_topoLive : TopoLive exS := exS_live [0, 1, 2, 3, 4] (List.Perm.refl _)
+
+theorem exS_wf (t : List Nat) (ht : t.Perm [0, 1, 2, 3, 4]) (hc : orderCheck (withTopo exS t) = true) :
+    PhasesWF (withTopo exS t) := by
+  refine ⟨order_of_check (exS_live t ht).nodup hc, ?_, ?_⟩
+  · intro n nd p rest hn hp
+    rcases exS_cases hn with ⟨rfl, rfl⟩ | ⟨rfl, rfl⟩ | ⟨rfl, rfl⟩ | ⟨rfl, rfl⟩ | ⟨rfl, rfl⟩
+    · cases hp
+    · cases hp; exact ⟨n0, rfl⟩
+    · cases hp; exact ⟨n1, rfl⟩
+    · cases hp; exact ⟨n0, rfl⟩
+    · cases hp; exact ⟨n0, rfl⟩
+  · intro n nd hn hp
+    rcases exS_cases hn with ⟨rfl, rfl⟩ | ⟨rfl, rfl⟩ | ⟨rfl, rfl⟩ | ⟨rfl, rfl⟩ | ⟨rfl, rfl⟩
+    · rfl
+    · cases hp
+    · cases hp
+    · cases hp
+    · cases hp
+
+theorem exS_phasesWF : PhasesWF exS := exS_wf [0, 1, 2, 3, 4] (List.Perm.refl _) (by decide)
+theorem exT_perm : exT.Perm exS.topo := by decide
+theorem exT_phasesWF : PhasesWF (withTopo exS exT) := exS_wf exT exT_perm (by decide)
+
+theorem exS_treeWF : TreeWF exS := by
+  refine ⟨?_, ?_⟩
+  · intro n nd hn c hc
+    rcases exS_cases hn with ⟨rfl, rfl⟩ | ⟨rfl, rfl⟩ | ⟨rfl, rfl⟩ | ⟨rfl, rfl⟩ | ⟨rfl, rfl⟩
+    · simp only [n0, List.mem_cons, List.not_mem_nil, or_false] at hc
+      rcases hc with rfl | rfl | rfl
+      exacts [⟨n4, rfl⟩, ⟨n3, rfl⟩, ⟨n1, rfl⟩]
+    · simp only [n1, List.mem_cons, List.not_mem_nil, or_false] at hc
+      subst hc; exact ⟨n2, rfl⟩
+    · cases hc
+    · cases hc
+    · cases hc
+  · intro m md hm
+    have hsrc : (0 : Nat) ∈ exS.sources := by decide
+    have c1 : (1 : Nat) ∈ exS.childsOf 0 := by decide
+    have c3 : (3 : Nat) ∈ exS.childsOf 0 := by decide
+    have c2 : (2 : Nat) ∈ exS.childsOf 1 := by decide
+    have c4 : (4 : Nat) ∈ exS.childsOf 0 := by decide
+    refine ⟨0, hsrc, ?_⟩
+    show DescK exS 4 0 m
+    rcases exS_cases hm with ⟨rfl, _⟩ | ⟨rfl, _⟩ | ⟨rfl, _⟩ | ⟨rfl, _⟩ | ⟨rfl, _⟩
+    · exact .refl _ _
+    · exact .step c1 (.refl _ _)
+    · exact .step c1 (.step c2 (.refl _ _))
+    · exact .step c3 (.refl _ _)
+    · exact .step c4 (.refl _ _)
+
+/-- the report of the example: S (listed in "run"), C ("run", "sleep" — "zz" is not a system phase), I (dict: "run" with
+    its value 1/5), NO row for the Rectifier RE, P (no configuration: "N/A" with its main parameter) -/
+theorem exS_phases : ∃ rep, phasesRows exS = .ok (some rep) ∧
+    rep.rows.map rowKey = [("S", "run"), ("C", "run"), ("C", "sleep"), ("I", "run"), ("P", "N/A")] ∧
+    rep.rows.map (·.ii) = [none, none, none, some (1/5), none] ∧
+    rep.rows.map (·.pwr) = [none, none, none, none, some 2] ∧
+    rep.rows.map (·.domain) = ["S", "S", "S", "S", "S"] ∧ rep.showDomain = false :=
+  ⟨_, rfl, rfl, rfl, rfl, rfl, rfl⟩
+
+/-- **the full statement fails**: the live Rectifier "RE" of `exS` is not listed by `phases()` -/
+theorem phases_lists_live_full_fails : ¬ phases_lists_live_full := by
+  intro hfull
+  obtain ⟨rep, hrep, hkeys, _⟩ := exS_phases
+  have hin : "RE" ∈ liveNames exS := by decide
+  have := hfull exS rep exS_topoLive hrep "RE" hin
+  have hcol : rep.rows.map (·.name) = (rep.rows.map rowKey).map (·.1) := by
+    rw [List.map_map]; rfl
+  rw [hcol, hkeys] at this
+  revert this; decide
+
+/-! ### non-vacuity of the main theorems -/
+
+-- params_lists_live / limits_lists_live: hypotheses hold, the Component column is S, C, I, RE, P
+example : (paramsRows exS true).map (·.name) = ["S", "C", "I", "RE", "P"] ∧
+    ((paramsRows exS true).map (·.name)).Perm (liveNames exS) :=
+  ⟨rfl, (params_lists_live exS_topoLive true).2⟩
+example : (limitsRows exS).map (·.name) = exS.topo.map exS.nameOf := (limits_lists_live exS_topoLive).1
+
+-- limits_show_nondefault: "vi" of I is configured ≠ default and shown; "po" of S is configured = default and blank;
+-- "ii" of I is not configured and blank
+example : filtLim cI.limits "vi" = some (1, 4) := by decide +kernel
+example : filtLim cS.limits "po" = none := by decide +kernel
+example : filtLim cI.limits "ii" = none := by decide +kernel
+example : (cI.paramRow false true).lims.lookup "vi" = some (some (1, 4)) :=
+  ((limits_show_nondefault cI false "vi" (by decide)).1).trans (by decide +kernel)
+
+-- params_show_config: a table is shown as "interp", a constant as stored, an absent key blank
+example : paramCell cC.params "eff" = .str "interp" := rfl
+example : paramCell cC.params "iq" = .float (1/1000) := rfl
+example : paramCell cC.params "pwr" = .str "" := rfl
+example : (cC.paramRow true false).pars.lookup "eff" = some (.str "interp") :=
+  (params_show_config cC false "eff" (by decide)).1
+
+-- params_show_normalised: the constructor hypothesis is satisfiable (negative `iq` is shown in magnitude)
+example : ∃ c, mkComp .converter "C" aC = .ok c ∧ (paramCell c.params "iq").num? = normField c "iq" := by
+  obtain ⟨c, hc⟩ := isSome_ok (x := mkComp .converter "C" aC) (by decide +kernel)
+  exact ⟨c, hc, ((params_show_normalised .converter "C" aC c hc "iq" (by decide)).2.2.1
+    (by simp [kindCols]) (by decide) (by decide)).1⟩
+example : ((mkComp .converter "C" aC).toOption.map fun c => ((paramCell c.params "iq").num?, c.iq)) =
+    some (some (1/1000), 1/1000) := by decide +kernel
+example : ((mkComp .iload "I" aI).toOption.map fun c => ((paramCell c.params "ii").num?, c.ii, filtLim c.limits "vi")) =
+    some (some (1/10), 1/10, some (1, 4)) := by decide +kernel
+
+-- phases_lists_live / phases_lists_live_iff / phases_show_activity on the example
+example : ∃ rep, phasesRows exS = .ok (some rep) ∧ rep.rows.map rowKey = exS.topo.flatMap (rowKeys exS) := by
+  obtain ⟨rep, hrep, _⟩ := exS_phases
+  exact ⟨rep, hrep, (phases_lists_live hrep).1⟩
+example : ∃ rep, phasesRows exS = .ok (some rep) ∧ "C" ∈ rep.rows.map (·.name) ∧ "RE" ∉ rep.rows.map (·.name) := by
+  obtain ⟨rep, hrep, _⟩ := exS_phases
+  refine ⟨rep, hrep, (phases_lists_live_iff exS_topoLive hrep "C").mpr ⟨1, n1, rfl, rfl, by decide⟩, ?_⟩
+  intro h
+  obtain ⟨n, nd, hn, hname, hk⟩ := (phases_lists_live_iff exS_topoLive hrep "RE").mp h
+  rcases exS_cases hn with ⟨rfl, rfl⟩ | ⟨rfl, rfl⟩ | ⟨rfl, rfl⟩ | ⟨rfl, rfl⟩ | ⟨rfl, rfl⟩
+  · revert hname; decide
+  · revert hname; decide
+  · revert hname; decide
+  · exact hk rfl
+  · revert hname; decide
+example : phNames (α := ℚ) .CONVERTER (.names ["run", "sleep", "zz"]) ["run", "sleep"] = .ok ["run", "sleep"] := rfl
+
+-- phases_show_values: a constructed ILoad with the dict {"run": 1/5}: the "run" row shows loadVal = 1/5 in `ii (A)`
+example : ∃ c r, mkComp .iload "I" aI = .ok c ∧
+    phaseRow c (.table [("run", 1/5)]) "S" "run" = .ok r ∧ r.ii = some (1/5) ∧ r.pwr = none ∧ r.rs = none := by
+  obtain ⟨c, hc⟩ := isSome_ok (x := mkComp .iload "I" aI) (by decide +kernel)
+  have hk : c.kind = .iload := (mkComp_shows _ _ _ _ hc).2.1
+  obtain ⟨r, hr⟩ : ∃ r, phaseRow c (.table [("run", 1/5)]) "S" "run" = .ok r := by
+    obtain ⟨_, hI, _⟩ := mkComp_load_params _ _ _ _ hc
+    obtain ⟨l1, l2, l3⟩ := hI rfl
+    unfold phaseRow
+    simp [hk, Kind.ctype, l1, l2, l3]
+  have hph : phNames (α := ℚ) .LOAD (.table [("run", 1/5)]) ["run", "sleep"] = .ok ["run"] := rfl
+  obtain ⟨h1, h2, _, h4, _⟩ := phases_show_values .iload "I" aI c hc rfl hph (by decide) (by decide) hr
+  refine ⟨c, r, hc, hr, ?_, h2 (by rw [hk]; decide), h4 (by rw [hk]; decide)⟩
+  have : loadCell c r = r.ii := by unfold loadCell; rw [hk]
+  rw [← this, h1]
+  simp [loadVal, PhaseConf.ctx, List.lookup]
+
+-- reports_order_free: both orders are valid; the phases() rows come out in another order
+example : (∀ b, (paramsRows (withTopo exS exT) b).Perm (paramsRows exS b)) ∧
+    (treeEdges (withTopo exS exT)).Perm (treeEdges exS) :=
+  let h := reports_order_free exS exT exT_perm exS_phasesWF exT_phasesWF
+  ⟨h.1, h.2.2.1⟩
+example : ∃ rep rep', phasesRows exS = .ok (some rep) ∧ phasesRows (withTopo exS exT) = .ok (some rep') ∧
+    rep'.rows.Perm rep.rows ∧ rep'.rows.map rowKey ≠ rep.rows.map rowKey := by
+  obtain ⟨rep, hrep, hk, _⟩ := exS_phases
+  obtain ⟨rep', hrep', hperm, _⟩ := (phases_order_free exS exT exT_perm exS_phasesWF exT_phasesWF).1 rep hrep
+  refine ⟨rep, rep', hrep, hrep', hperm, ?_⟩
+  rw [hk, (phases_lists_live hrep').1]
+  decide
+example : (paramsRows (withTopo exS exT) false).map (·.name) = ["S", "P", "RE", "C", "I"] := rfl
+
+-- tree(): printed links and lines of the example; tree_lists_live_partial applies
+example : treeEdges exS = [("S", "P"), ("S", "RE"), ("S", "C"), ("C", "I")] := rfl
+example : treeLinesAll exS = [(0, "S"), (1, "P"), (1, "RE"), (1, "C"), (2, "I")] := rfl
+example : ∀ x, x ∈ (treeLinesAll exS).map (·.2) ↔ x ∈ liveNames exS := (tree_lists_live_partial exS_treeWF).1
+
+end examples
 
 end C16P
 end SysLoss
